@@ -348,6 +348,8 @@ class AutoQKHyperModel(HyperModel):
     # any layers. Therfore, we use filter_sweep_enabled to mark if any layer
     # in current block needs filter sweep.
     kernel_quantizer_dict = {}
+    recurrent_quantizer_dict = {}
+    pointwise_quantizer_dict = {}
     filter_sweep_enabled = False
     for layer in model.layers:
       if layer.__class__.__name__ in REGISTERED_LAYERS:
@@ -373,11 +375,13 @@ class AutoQKHyperModel(HyperModel):
           recurrent_quantizer, _ = self._get_quantizer(
             hp, layer.name + "_recurrent_kernel", layer.name, layer.__class__.__name__,
             is_kernel=True)
+          recurrent_quantizer_dict[layer.name] = recurrent_quantizer
 
         if layer.__class__.__name__ in ["SeparableConv1D", "SeparableConv2D"]:
           pointwise_quantizer, _ = self._get_quantizer(
             hp, layer.name + "_pointwise_kernel", layer.name, layer.__class__.__name__,
             is_kernel=True)
+          pointwise_quantizer_dict[layer.name] = pointwise_quantizer
 
     if self.tune_filters == "block" and filter_sweep_enabled:
       network_filters = hp.Choice(
@@ -460,10 +464,10 @@ class AutoQKHyperModel(HyperModel):
         layer_d[kernel_name] = kernel_quantizer
 
         if layer.__class__.__name__ in SEQUENCE_LAYERS:
-          layer_d['recurrent_quantizer'] = recurrent_quantizer
+          layer_d['recurrent_quantizer'] = recurrent_quantizer_dict[layer.name]
 
         if layer.__class__.__name__ in ["SeparableConv1D", "SeparableConv2D"]:
-          layer_d['pointwise_quantizer'] = pointwise_quantizer
+          layer_d['pointwise_quantizer'] = pointwise_quantizer_dict[layer.name]
 
         if layer.__class__.__name__ in ["LSTM", "GRU", "Bidirectional"]:
           layer_d['recurrent_activation'], _  = self._get_quantizer(
